@@ -253,7 +253,9 @@ fn random_case(rng: &mut Rng, thorough: bool) -> GenCase {
             1 => {
                 let j = rng.below(live.len() as u64) as usize;
                 let h = live.remove(j);
-                let len = *rng.pick(&[0usize, 0, 1, 3, 8, 20]);
+                // now and then a payload around (and beyond) what fits into one datagram: the service
+                // hands the application's bytes to the transport unchanged
+                let len = if rng.chance(1, 16) { *rng.pick(&[1176usize, 1177, 1300]) } else { *rng.pick(&[0usize, 0, 1, 3, 8, 20]) };
                 ops.push(Op::Respond(h, rng.bytes(len)));
             }
             2 => {
